@@ -10,6 +10,19 @@ TV = ("TLA+ specification of the block checked exhaustively by TLC (leg A); scen
       "validated against the specification by TLC with all invariants on every step (leg B)")
 
 CLAIMS = {
+    "C13": dict(
+        category="model_checking",
+        text=("PPU.tla: position in the 17,556-cycle frame, the shortened first line after switch-on, LY/mode as functions of the position, LCD on/off as actions enabled in every state. TLC explores the whole graph and checks line length, "
+              "LY range and order, the mode schedule and the immediate effect of switching. The real ppu.PPU is ticked cycle by cycle with LY and the STAT mode read after every machine cycle over whole frames, with the LCD switched off/on at every "
+              "cycle of lines of each class and under random on/off schedules; TLC validates every cycle."),
+        design="5/C13", technique="TLA+ line/mode machine + TLC exhaustive MC; TLC trace validation of per-cycle LY/mode observations",
+        note="The convention that the first tick after switch-on shows line 0 cycle 0 and that the two missing cycles come out of mode 0 was confirmed against the code in the design pilots."),
+    "C14": dict(
+        category="model_checking",
+        text=("Same module: VBlank at the cycle line 144 begins, STAT at the rising edge of the single enabled source (HBlank entry, line 144, line starts 0-143, the line where LY becomes LYC), nothing while off; TLC checks these on the whole graph "
+              "per source and LYC. The real PPU runs with IF read and cleared after every machine cycle for each single source x LYC values over whole frames and under on/off schedules; TLC validates the request bits of every cycle."),
+        design="5/C14", technique="TLA+ request conditions + TLC MC per source/LYC; TLC trace validation of per-cycle IF observations",
+        note="Several sources at once, LYC changes while on, the OAM source on line 144 / at switch-on are not judged."),
     "C22": dict(
         category="model_checking",
         text=("Joypad.tla is model-checked over its complete state space (576 states, all 16 key events and all 256 JOYP writes). "
